@@ -251,14 +251,6 @@ def lineCount (file : Text) (b : Block) (expr : Text) : Except ErrKind (Option D
 /-! ### affects -/
 
 /-- `parse_affects_attribute`: comma list of `file:name`, blanks trimmed, empty file = same file -/
-def splitOn (sep : Char) : Text → List Text
-  | [] => [[]]
-  | c :: cs =>
-    if c = sep then [] :: splitOn sep cs
-    else match splitOn sep cs with
-      | [] => [[c]]
-      | l :: ls => (c :: l) :: ls
-
 def splitOnce (sep : Char) : Text → Option (Text × Text)
   | [] => none
   | c :: cs => if c = sep then some ([], cs) else (splitOnce sep cs).map (fun (a, b) => (c :: a, b))
@@ -270,18 +262,5 @@ def parseAffects (v : Text) : Except ErrKind (List (Option Text × Text)) :=
     | some (f, n) =>
       let f := trim f
       .ok (if f.isEmpty then none else some f, trim n))
-
-/-- `PathBuf` equality is by components: repeated `/` and `.` components (not the first) collapse,
-    a trailing `/` is ignored -/
-def pathComponents (p : Text) : List Text :=
-  let parts := splitOn '/' p
-  let root : List Text := if startsWith ['/'] p then [['/']] else []
-  let comps := (zipIdx parts).filterMap (fun (i, c) =>
-    if c.isEmpty then none
-    else if c = ['.'] && (i > 0) then none
-    else some c)
-  root ++ comps
-
-def pathEq (a b : Text) : Bool := pathComponents a = pathComponents b
 
 end Bw.Val
